@@ -20,6 +20,7 @@ package c16
 // auth-fail (RADIUS rejects the REQUEST), shutdown (the sequence main.go runs after ctx.Done()).
 
 import (
+	"encoding/hex"
 	"fmt"
 	"net"
 	"strings"
@@ -71,6 +72,18 @@ func dhcpPathValid(kind, path string) bool {
 	return true
 }
 
+// rediscover family: a termination that leaves the client without a lease is followed by a DISCOVER of the same
+// client (-> OFFER, no lease), and the OFFER then meets one of five fates.  "" = REQUEST acknowledged, then RELEASE.
+var rediscoverStages = []string{"expiry", "release", "decline"}
+var rediscoverConts = []string{"", "abandon", "decline", "release", "auth-fail"}
+
+func rediscoverPath(stage, cont string) string {
+	if cont == "" {
+		return stage + "-rediscover"
+	}
+	return stage + "-rediscover." + cont
+}
+
 func dhcpCells(kind string) []cellSpec {
 	var out []cellSpec
 	for _, p := range dhcpPaths {
@@ -87,6 +100,41 @@ func dhcpCells(kind string) []cellSpec {
 			}
 		}
 	}
+	for _, st := range rediscoverStages {
+		for _, ct := range rediscoverConts {
+			if st == "expiry" && ct == "" {
+				continue // = dhcpPaths' expiry-rediscover
+			}
+			seconds := []string{"none", "seq:release"}
+			if ct == "" {
+				seconds = []string{"none", "seq:release", "seq:decline", "seq:expiry"}
+			}
+			for _, pre := range []string{"acked", "renewed", "initreboot"} {
+				for _, s := range seconds {
+					out = append(out, cellSpec{Kind: kind, Path: rediscoverPath(st, ct), Prefix: pre, Second: s})
+				}
+			}
+		}
+	}
+	return out
+}
+
+// dhcpFaultCells: one removal the termination makes fails once.  dhcp.Server's resources are real, so the failure is
+// produced on what the harness owns: the kernel map entry is deleted beforehand (the manager's / loader's Delete then
+// returns ENOENT), or the scripted RADIUS server refuses the Accounting-Stop.
+func dhcpFaultCells(kind string) []cellSpec {
+	var out []cellSpec
+	faults := []string{"rm-cache-mac", "rm-nat-entry", "rm-qos-entry", "acct-stop"}
+	if kind == "dhcp-relay" {
+		faults = append(faults, "rm-cache-circuit-id")
+	}
+	for _, p := range []string{"release", "decline", "expiry"} {
+		for _, pre := range []string{"acked", "renewed"} {
+			for _, f := range faults {
+				out = append(out, cellSpec{Kind: kind, Path: p, Prefix: pre, Second: "none", Fault: f})
+			}
+		}
+	}
 	return out
 }
 
@@ -97,8 +145,12 @@ func genDHCP(s src, c cellSpec, base *params) *tcase {
 	} else {
 		genCommon(s, &tc.P)
 	}
-	if c.Path == "auth-fail" {
+	if c.Path == "auth-fail" || strings.HasSuffix(c.Path, ".auth-fail") {
 		tc.P.Radius, tc.P.RadiusAuth = true, true
+	}
+	tc.Fault = c.Fault
+	if c.Fault != "" {
+		tc.P.Radius, tc.P.Policies, tc.P.QoS, tc.P.NAT, tc.P.FilterID = true, true, true, true, ""
 	}
 	if c.Kind == "dhcp-relay" {
 		switch s.intn("cid.cls", 0, 5) {
@@ -142,6 +194,7 @@ type dhcpRun struct {
 	gw   net.IP
 	xid  uint32
 	ip   net.IP // address of the session under test (offered or leased)
+	ip2  net.IP // rediscover family: the address of the ended session if the new OFFER names another one
 	bgIP []net.IP
 
 	quarantined int // effective DECLINEs of the session's address
@@ -312,7 +365,7 @@ func (x *dhcpRun) openAcct() []string {
 	starts, stops := map[string]int{}, map[string]int{}
 	var order []string
 	for _, r := range x.rs.records() {
-		if !x.isMine(r.Calling) {
+		if !x.isMine(r.Calling) || !r.OK {
 			continue
 		}
 		if _, ok := starts[r.SID]; !ok {
@@ -416,20 +469,116 @@ func (x *dhcpRun) finish() {
 }
 
 // terminate performs one termination path on the session under test.
+func (x *dhcpRun) declineCounted() {
+	before := len(x.pool.VerifState().Unavailable)
+	x.decline(x.mac(), x.curCid, x.tc.P.RemoteID, x.ip)
+	if len(x.pool.VerifState().Unavailable) > before {
+		x.quarantined++
+	}
+}
+
+// rediscover: stage (the lease lapses without a tick | RELEASE | DECLINE), then the same client DISCOVERs again and
+// holds an OFFER but no lease, then the continuation decides the fate of that OFFER.  Whatever it is, once the
+// client has no lease nothing of the ended session may remain on its address.
+func (x *dhcpRun) rediscover(stage, cont string) {
+	p := &x.tc.P
+	switch stage {
+	case "expiry":
+		x.lapse()
+		x.res.logf("  lease ran out (%ds, no cleanup tick yet)", p.LeaseS)
+	case "release":
+		x.res.logf("  RELEASE %s", x.ip)
+		x.release(x.mac(), x.curCid, p.RemoteID, x.ip)
+	case "decline":
+		x.res.logf("  DECLINE %s", x.ip)
+		x.declineCounted()
+	}
+	if cont == "auth-fail" {
+		x.rs.setAuth(x.mac().String(), authScript{Accept: false})
+	}
+	ip := x.discover(x.mac(), x.curCid, p.RemoteID)
+	if ip == nil {
+		x.res.harness = "DISCOVER after " + stage + " got no OFFER"
+		return
+	}
+	x.res.logf("  DISCOVER -> OFFER %s", ip)
+	x.ip2 = x.ip
+	x.ip = ip
+	switch cont {
+	case "":
+		if ok, _ := x.request(x.mac(), x.curCid, p.RemoteID, "selecting", ip); !ok {
+			x.res.harness = "REQUEST after the re-DISCOVER got no ACK"
+			return
+		}
+		x.res.logf("  REQUEST -> ACK %s (new session); RELEASE", ip)
+		x.release(x.mac(), x.curCid, p.RemoteID, x.ip)
+	case "abandon":
+		x.res.logf("  the client never comes back for the OFFER: its hold time (%ds) passes, cleanup tick", p.LeaseS)
+		x.passLease()
+	case "decline":
+		x.res.logf("  DECLINE of the offered %s", ip)
+		x.declineCounted()
+	case "release":
+		x.res.logf("  RELEASE of the offered %s", ip)
+		x.release(x.mac(), x.curCid, p.RemoteID, x.ip)
+	case "auth-fail":
+		ok, replied := x.request(x.mac(), x.curCid, p.RemoteID, "selecting", ip)
+		x.res.logf("  REQUEST %s with RADIUS rejecting -> ack=%v replied=%v", ip, ok, replied)
+		if ok {
+			x.res.fail("C16/dhcp/"+x.tc.Path+"/acked-despite-reject", "RADIUS rejected %s but the REQUEST for %s was acknowledged", x.mac(), ip)
+		}
+	}
+}
+
+// injectFault makes one removal of the coming termination fail (see dhcpFaultCells).
+func (x *dhcpRun) injectFault(pre *census) {
+	del := func(name string) {
+		m := x.w.maps[name]
+		now, err := rawKeys(m)
+		if err != nil {
+			x.res.harness = err.Error()
+			return
+		}
+		extra, _ := diffKeys(pre.Maps[name], now)
+		if len(extra) == 0 {
+			x.res.classes = append(x.res.classes, "fault:vacuous")
+		}
+		for _, k := range extra {
+			b, _ := hex.DecodeString(k)
+			if err := m.Delete(b); err != nil {
+				x.res.harness = "fault injection: " + err.Error()
+			}
+		}
+		x.res.logf("  (fault: %d entr(y/ies) of %s deleted beforehand: the removal will fail)", len(extra), name)
+	}
+	switch x.tc.Fault {
+	case "rm-cache-mac":
+		del("subscriber_pools")
+	case "rm-cache-circuit-id":
+		del("circuit_id_map")
+	case "rm-nat-entry":
+		del("subscriber_nat")
+	case "rm-qos-entry":
+		del("qos_egress")
+	case "acct-stop":
+		x.rs.failNextStops(1)
+		x.res.logf("  (fault: the next Accounting-Stop is refused by the RADIUS server)")
+	}
+}
+
 func (x *dhcpRun) terminate(path string) {
 	p := &x.tc.P
+	if base, cont, _ := strings.Cut(path, "."); strings.HasSuffix(base, "-rediscover") {
+		x.rediscover(strings.TrimSuffix(base, "-rediscover"), cont)
+		return
+	}
 	switch path {
 	case "release":
 		x.res.logf("  RELEASE %s", x.ip)
 		x.release(x.mac(), x.curCid, p.RemoteID, x.ip)
 	case "decline":
 		x.res.logf("  DECLINE %s", x.ip)
-		st := x.pool.VerifState()
-		before := len(st.Unavailable)
-		x.decline(x.mac(), x.curCid, p.RemoteID, x.ip)
-		if len(x.pool.VerifState().Unavailable) > before {
-			x.quarantined++
-		}
+		x.declineCounted()
 	case "expiry":
 		x.res.logf("  lease time passes (%ds), cleanup tick", p.LeaseS)
 		x.passLease()
@@ -732,6 +881,12 @@ func runDHCPInBubble(tc *tcase, rs *radServer, res *result) {
 			return
 		}
 	} else {
+		if tc.Fault != "" {
+			x.injectFault(pre)
+			if res.harness != "" {
+				return
+			}
+		}
 		x.terminate(tc.Path)
 	}
 	if res.harness != "" {
@@ -869,6 +1024,9 @@ func (x *dhcpRun) oracle(sigPath string, pre *census, prePool dhcp.VerifPoolStat
 		if len(res.viol) > 0 {
 			return
 		}
+	}
+	if x.ip2 != nil && !x.ip2.Equal(x.ip) && len(res.viol) == 0 {
+		x.w.planeOracle(res, tc, sigPath, pre, sessionIdent{MAC: x.curMAC, IP: x.ip2, Cid: x.cids[0]})
 	}
 	for _, cid := range x.cids[1:] {
 		x.w.planeOracle(res, tc, sigPath, pre, sessionIdent{MAC: x.curMAC, IP: x.ip, Cid: cid})
